@@ -122,11 +122,12 @@ def build(p, e, topo, nfr, T, behaviours):
         ref['B'] = ref['C'] = [{'main': i} for i in src]
     elif topo == 'tee_rejoin':
         p.add('A', outputs='tcp://*:5550', source_frames=nfr, outputs_required='B, C', start_at=g('sA'), frame_interval=g('pA'))
-        p.add('B', sources='tcp://localhost:5550', outputs='tcp://*:5552', behave=passf, outputs_required='D', proc_time=g('pB'), start_at=g('sB'))
+        empty_ids = behaviours.get('B_empty_ids', ())      # branch B answers these frames with an empty frame set ({}): the id still travels, with no topic
+        p.add('B', sources='tcp://localhost:5550', outputs='tcp://*:5552', behave=(lambda s, f: {} if s['main'] in empty_ids else f), outputs_required='D', proc_time=g('pB'), start_at=g('sB'))
         p.add('C', sources='tcp://localhost:5550', outputs='tcp://*:5554', behave=lambda s, f: {'side': f['main']}, outputs_required='D', proc_time=g('pC'), start_at=g('sC'))
         p.add('D', sources='tcp://localhost:5552, tcp://localhost:5554', behave=lambda s, f: None, start_at=g('sD'))
         ref['B'] = ref['C'] = [{'main': i} for i in src]
-        ref['D'] = [{'main': i, 'side': i} for i in src]
+        ref['D'] = [({'side': i} if i in empty_ids else {'main': i, 'side': i}) for i in src]
     elif topo == 'join':
         p.add('A', outputs='tcp://*:5550', source_frames=nfr, outputs_required='C', start_at=g('sA'), frame_interval=g('pA'))
         p.add('B', outputs='tcp://*:5552', source_frames=nfr, outputs_required='C', start_at=g('sB'), frame_interval=g('pB'))
@@ -186,6 +187,7 @@ def harnesses(tier):
                S('c03.chain3.speed_B', 'chain3', 3, {'pB': (0, 1200)}),
                S('c03.chain3.behaviours', 'chain3', 3, {'d': (1, 99)}, fixed={'pB': 150}, behaviours=BEH),
                S('c03.tee_rejoin.speeds', 'tee_rejoin', 3, {'pB': (0, 400)}, fixed={'d': 10, 'pC': 150}),
+               S('c03.tee_rejoin.empty_sets', 'tee_rejoin', 3, {'pC': (0, 500)}, fixed={'d': 10}, behaviours={'B_empty_ids': (1,)}),
                S('c03.join.offsets', 'join', 3, {'sB': (0, 1000)}, fixed={'d': 10, 'pC': 50})]
     else:
         hs += [S('c03.chain3.delays2', 'chain3', 4, {'d_AB': (1, 99), 'd_BC': (1, 99)}, budget=3000, twin=topo_scenario('chain3', 2, {'d': (1, 99)}, planted=True)),
@@ -198,6 +200,7 @@ def harnesses(tier):
                S('c03.tee.offsets', 'tee', 4, {'sB': (0, 700), 'sC': (0, 700)}, budget=3000),
                S('c03.tee_rejoin.speeds', 'tee_rejoin', 4, {'pB': (0, 250), 'pC': (0, 250)}, budget=3000),
                S('c03.tee_rejoin.offsets', 'tee_rejoin', 3, {'sB': (0, 700), 'sD': (0, 700)}, budget=3000),
+               S('c03.tee_rejoin.empty_sets', 'tee_rejoin', 4, {'pC': (0, 500)}, fixed={'d': 10}, behaviours={'B_empty_ids': (1, 2)}, budget=3000),
                S('c03.join.offsets', 'join', 4, {'sA': (0, 700), 'sB': (0, 700)}, budget=3000)]
     return hs
 
